@@ -405,6 +405,8 @@ type Clause struct {
 }
 
 type LoopSpec struct {
+	Exit []*Clause
+	ExitUses []*Expr
 	Uses []*Expr
 	Inv  []*Clause
 	Dec  *Expr
@@ -893,6 +895,21 @@ func (c *Contract) addClause(word, rest string) error {
 				return err
 			}
 			ls.Uses = append(ls.Uses, e)
+		case "exit-uses":
+			e, err := ParseExpr(f[2])
+			if err != nil {
+				return err
+			}
+			ls.ExitUses = append(ls.ExitUses, e)
+		case "exit":
+			// loop N exit assert expr : loop postcondition, checked where the loop is left and then assumed
+			body := strings.TrimSpace(strings.TrimPrefix(f[2], "assert"))
+			tags, body := parseTags(body)
+			e, err := ParseExpr(body)
+			if err != nil {
+				return err
+			}
+			ls.Exit = append(ls.Exit, &Clause{Tags: tags, E: e, Text: body})
 		case "modifies":
 			for _, part := range splitTop(f[2], ',') {
 				ls.Mods = append(ls.Mods, strings.TrimSpace(part))
